@@ -21,8 +21,15 @@ Definition op_eqb (a b : eop nat) : bool :=
   | _, _ => false
   end.
 
-(* hints compare as multisets: the order of region metadata is not promised; keys are compared after the
-   per-region renaming of spec/ExportCanon.v (canon_keys): no numbering of keys is promised *)
+(* the comparison is parametrised by the comparison of the hint lists of a region:
+   - the verdict (corr) compares them as SETS: the order of region metadata is not promised, and one hint
+     per pair of nodes says all the property asks for (parallel order edges between the same two nodes need not
+     be repeated);
+   - the drift diagnostic compares them as multisets (what the model emits: one hint per order link).
+   Keys are compared after the per-region renaming of spec/ExportCanon.v (canon_keys): no numbering of keys is
+   promised; for the verdict the keys no hint mentions are dropped first (prune_keys). *)
+Section Cmp.
+Variable hints_eqb : list (Z * Z) -> list (Z * Z) -> bool.
 Fixpoint node_eqb (a b : enode nat nat) : bool :=
   match a, b with
   | ENode o s i ou r k m, ENode o' s' i' ou' r' k' m' =>
@@ -33,7 +40,7 @@ Fixpoint node_eqb (a b : enode nat nat) : bool :=
          | [], [] => true
          | ERegion k1 s1 t1 c1 h1 :: x', ERegion k2 s2 t2 c2 h2 :: y' =>
              rkind_eqb k1 k2 && list_eqb Nat.eqb s1 s2 && list_eqb Nat.eqb t1 t2 &&
-             perm_eqb zz_eqb h1 h2 &&
+             hints_eqb h1 h2 &&
              (fix nodes (u v : list (enode nat nat)) : bool :=
                 match u, v with
                 | [], [] => true
@@ -46,6 +53,14 @@ Fixpoint node_eqb (a b : enode nat nat) : bool :=
   end.
 Definition region_eqb (a b : eregion nat nat) : bool :=
   node_eqb (ENode OInvalid 0 [] [] [a] [] []) (ENode OInvalid 0 [] [] [b] [] []).
+End Cmp.
+(* verdict: what the property promises *)
+Definition same_export (m : eregion port Z) (o : eregion N N) : bool :=
+  region_eqb (seteq_b zz_eqb) (canon_cmp port_eqb Z.eqb m) (canon_cmp N.eqb N.eqb o).
+(* diagnostic ("model drift"): the implementation makes the model's unprescribed choices too — a key exactly
+   on the nodes the model keys, one hint per order link *)
+Definition same_export_strict (m : eregion port Z) (o : eregion N N) : bool :=
+  region_eqb (perm_eqb zz_eqb) (canon_full port_eqb Z.eqb m) (canon_full N.eqb N.eqb o).
 
 (* the guard of the theorems of props/C12.v, all of it: valid_b (clauses 1-5, 7), valid_order_b and
    order_ports_b (clause 6), stars_b (clause 4), cfg_entries_b (totality: with valid_b the export raises
@@ -53,22 +68,25 @@ Definition region_eqb (a b : eregion nat nat) : bool :=
 Definition valid_all (h : hugr) : bool :=
   valid_b h && valid_order_b h && stars_b h && order_ports_b h && cfg_entries_b h.
 
-(* correspondence: the implementation's module equals the model's up to renaming (and both fail
-   together); a HUGR the generator built as a valid module meets the guard of the theorems *)
+(* correspondence: on a HUGR that meets the guard of the theorems the implementation's module equals the
+   model's up to renaming (and the export does not raise); a HUGR the generator built as a valid module meets
+   that guard.  Outside the guard (not a module root, a CFG without entry block, an order port linked to a value
+   port, ...) the property promises nothing: whether the export raises, and what it returns, is not judged
+   (diagnostic g_outside_agree). *)
 Definition corr (c : case) : bool :=
   match c with
   | CExport h obs ev _ =>
       implb ev (valid_all h) &&
-      match to_model h, obs with
-      | None, None => true
-      | Some m, Some o =>
-          region_eqb (canon_full port_eqb Z.eqb m) (canon_full N.eqb N.eqb o) &&
-          (* clause 6 (a theorem since the second pass) stays evaluated on the model's module *)
-          (if valid_all h then order_hints_complete_and_keyed h m else true)
-      | _, _ => false
-      end &&
-      (* totality (C12_export_total): under the guard the model does not fail *)
-      (if valid_all h then match to_model h with Some _ => true | None => false end else true)
+      (if valid_all h then
+         match to_model h, obs with
+         | Some m, Some o =>
+             same_export m o &&
+             (* clause 6 (a theorem since the second pass) stays evaluated on the model's module *)
+             order_hints_complete_and_keyed h m
+         (* totality (C12_export_total): under the guard neither the model nor the implementation fails *)
+         | _, _ => false
+         end
+       else true)
   end.
 
 (* monitor: the specification evaluated on what the implementation returned *)
@@ -125,6 +143,27 @@ Definition g_hints := on_h valid_hints_b.
 Definition g_total := on_h valid_total_b.
 Definition g_all := on_h valid_all.
 Definition g_noerr := on_h (fun h => negb (export_err h)).
+
+(* diagnostics, never an alarm ("model drift"):
+   g_outside_agree — outside the guard model and implementation fail together or return the same module
+   (strict comparison); g_strict — under the guard the implementation's module equals the model's also in the
+   choices the property leaves open (which nodes carry a key, one hint per order link) *)
+Definition g_outside_agree (c : case) : bool :=
+  match c with
+  | CExport h obs _ _ =>
+      if valid_all h then true else
+      match to_model h, obs with
+      | None, None => true
+      | Some m, Some o => same_export_strict m o
+      | _, _ => false
+      end
+  end.
+Definition g_strict (c : case) : bool :=
+  match c with
+  | CExport h (Some o) _ _ =>
+      if valid_all h then match to_model h with Some m => same_export_strict m o | None => false end else true
+  | _ => true
+  end.
 
 (* diagnostic, never an alarm: does the implementation spell exactly the first-use numbers of
    model/ExportNum.v (same tree traversal, names compared as numbers)?  corr compares up to renaming, so
